@@ -266,11 +266,11 @@ func main() {
 	if lib.Thorough() {
 		R, crossR = 200, 10
 		nGen, genCases = 4, 80
-		taintTD = append(taintTD, "taint/globals", "taint/basic", "taint/fields", "taint/interfaces", "taint/parameters", "taint/tuples", "taint/defers")
-		backTD = append(backTD, "backtrace/closures", "backtrace/backtrace", "backtrace/example0")
+		taintTD = append(taintTD, "taint/globals", "taint/parameters", "taint/tuples")
+		backTD = append(backTD, "backtrace/closures", "backtrace/backtrace")
 		crossTestdata = true
 		tieMax = 2
-		cpuSets = []int{1, 2, 3, 4, 5, 6, 7, 8, 9, 10, 11, 12, 13, 14, 15, 16}
+		cpuSets = []int{1, 2, 3, 4, 6, 8, 12, 16}
 	}
 	work := lib.WorkDir("C06", "progs")
 	type job struct{ kind, spec, name string }
@@ -332,8 +332,8 @@ func main() {
 				if k > nproc {
 					continue
 				}
-				if strings.HasPrefix(j.spec, "testdata:") && ki%6 != 0 {
-					continue // testdata: three CPU sets
+				if strings.HasPrefix(j.spec, "testdata:") && ki != 0 && ki != len(cpuSets)-1 {
+					continue // testdata: the smallest and the largest CPU set
 				}
 				set := "0"
 				if k > 1 {
